@@ -112,3 +112,31 @@ func TestPoolDoublePutAndReplay(t *testing.T) {
 		t.Fatalf("replay: same=%v obs=%v", same, r.Obs)
 	}
 }
+
+func TestShardsPartition(t *testing.T) {
+	var mu vsync.Mutex
+	body := func() {
+		done := 0
+		for i := 0; i < 3; i++ {
+			sched.Spawn(fmt.Sprint("t", i), func() {
+				mu.Lock()
+				sched.Yield("in")
+				mu.Unlock()
+				sched.Yield("out")
+				done++
+			})
+		}
+		sched.Block(func() bool { return done == 3 }, "join")
+	}
+	opt := sched.Options{PreemptionBound: 2, EnvBound: -1}
+	whole := sched.Explore(body, opt, func(sched.Result) bool { return true })
+	sum := 0
+	for s := 0; s < 5; s++ {
+		st := sched.ExploreShard(body, opt, s, 5, func(sched.Result) bool { return true })
+		sum += st.Executions
+	}
+	if sum != whole.Executions {
+		t.Fatalf("shards cover %d executions, unsharded exploration %d", sum, whole.Executions)
+	}
+	t.Logf("executions=%d", whole.Executions)
+}
